@@ -24,6 +24,7 @@ inductive Wait where
   | read (s n : Nat) (chunk : Bool)
   | write (s len : Nat)
   | pwait (k : Nat)
+  | twait (k : Nat)                              -- os/shell / ev/thread: janet_ev_threaded_await
   deriving Repr, Inhabited
 
 /-- result of one read()/write() system call, as observed on the implementation (input of the model) -/
@@ -61,6 +62,7 @@ inductive Stmt where
   | enter                 -- the statements up to the matching `leave` run inside one child fiber of the task (try / defer / coro body)
   | leave
   | goSelf                -- (ev/go (fiber/root)): the running task schedules itself
+  | finish (k : Nat)      -- the worker thread of threaded call k is released (FIFO written) and has posted its completion
   deriving Repr, Inhabited
 
 structure IFiber where
@@ -89,6 +91,9 @@ structure IS where
   bufs : Array String := #[]           -- printed form of the buffers handed to fibers (Val.buf i)
   kin : List KIn := []                 -- remaining kernel inputs
   pendingExits : List Nat := []        -- processes that exited, completion not yet delivered through the self pipe
+  thrs : Array String := #[]           -- threaded calls
+  thrShell : Array Bool := #[]         -- true: os/shell (result = exit status 0), false: ev/thread (result nil)
+  pendingThr : List Nat := []
   deriving Inhabited
 
 /-! ### exact timer heap of ev.c -/
@@ -364,6 +369,7 @@ def startWait (s : IS) (f : Nat) : Wait → IS × Outcome
         let s := { s with w := asyncStart s.w f sid false }
         (writeStep (setSop s f (some (.write sid 0 len))) f, .blocked)
   | .pwait k => ({ s with w := procWait s.w f k }, .blocked)
+  | .twait k => ({ s with w := thrWait s.w f k }, .blocked)
   | .deadline us inner =>
       let b := s.nextBody
       let s := { s with nextBody := b + 1, w := step s.cfg s.w (.bodyStart b) }
@@ -417,6 +423,9 @@ def runFiber (s : IS) (f : Nat) : Nat → IS
           -- closing the child's stdin makes it exit; verif/settle waits until the waiter thread has posted the completion
           let s := emit s s!"L {s.w.now} {fname s f} :settle true"
           runFiber (next { s with pendingExits := s.pendingExits ++ [k] }) f fuel
+      | .finish k =>
+          let s := emit s s!"L {s.w.now} {fname s f} :settle true"
+          runFiber (next { s with pendingThr := s.pendingThr ++ [k] }) f fuel
       | .enter => runFiber (next { s with w := step s.cfg s.w (.childEnter f) }) f fuel
       | .leave => runFiber (next { s with w := step s.cfg s.w (.childLeave f) }) f fuel
       | .goSelf => runFiber (next { s with w := step s.cfg s.w (.spawn f) }) f fuel
@@ -481,7 +490,8 @@ def pollEvents (s : IS) : Nat → IS
         pollEvents s n
     | .self :: rest =>
         let w := s.pendingExits.foldl (fun w k => procExit s.cfg w k 7) s.w
-        pollEvents { s with kin := rest, w := w, pendingExits := [] } n
+        let w := s.pendingThr.foldl (fun w k => thrDone s.cfg w k (if s.thrShell[k]?.getD true then .int 0 else .nil) false) w
+        pollEvents { s with kin := rest, w := w, pendingExits := [], pendingThr := [] } n
     | .timer :: rest => pollEvents { s with kin := rest } n
     | _ => emit s "KMISMATCH poll group shorter than announced"
 
